@@ -675,7 +675,7 @@ func c03ErrTexts(c *Ctx, idx int) {
 func init() {
 	Register(&Property{
 		ID:            "C03",
-		Rule:          "expression bytes (all prefixes/suffixes of every corpus expression - exhaustive; random bytes; random token sequences over a hostile vocabulary incl. invalid UTF-8; token mutants; 1 MiB flat inputs; 20 recursive constructs nested to depth 10..1e5 (3e5 thorough) and the 4e6 witnesses) and data (every Go numeric kind incl. NaN/Inf, odd json.Number texts, decimal specials, typed nils, foreign values, invalid UTF-8) placed in every argument position of every builtin and operator; failing expressions of every error category whose text - the whole expression, or one argument at each argument position - has 0..140 and up to 65537 characters of one encoded width at every byte alignment (byte length and character count differ by up to 4x around every plausible cut-off of an error message); an exhaustive slice lattice (start/stop/step over {absent, small, +-2^62, 2^63-1, 2^63-2, -2^63, -2^63+1} on single-byte strings, multi-byte strings and arrays, as literal subject / current node / after a pipe / twice in a row); each driven through Search, Compile and Expression.Search with every returned error formatted; a monitor reports recovered panics, the driver attributes child deaths through the crash-surviving intent slot; non-trivial = every distinct input (all are meaningful for a crash property); the hostile values include a pool of standard-library carriers (math/big numbers, raw JSON, pointers to scalars and containers, readers, marshalers with nil-dereferencing methods), each as a useful value, a malformed one and a typed nil; byte-runs stream: every byte value and 20 ill-formed byte patterns repeated 1..70000 times (22 lengths around 64, 128, 256, 1024, 4096), alone, after a prefix, before a suffix and inside each token kind, every error formatted; misspelled-builtins stream: every name within one edit of a builtin, its prefixes, suffixes and case variants, all one- and two-letter names, in 4 call shapes",
+		Rule:          "expression bytes (all prefixes/suffixes of every corpus expression - exhaustive; random bytes; random token sequences over a hostile vocabulary incl. invalid UTF-8; token mutants; 1 MiB flat inputs; 20 recursive constructs nested to depth 10..1e5 (3e5 thorough) and the 4e6 witnesses) and data (every Go numeric kind incl. NaN/Inf, odd json.Number texts, decimal specials, typed nils, foreign values, invalid UTF-8) placed in every argument position of every builtin and operator; failing expressions of every error category whose text - the whole expression, or one argument at each argument position - has 0..140 and up to 65537 characters of one encoded width at every byte alignment (byte length and character count differ by up to 4x around every plausible cut-off of an error message); an exhaustive slice lattice (start/stop/step over {absent, small, +-2^62, 2^63-1, 2^63-2, -2^63, -2^63+1} on single-byte strings, multi-byte strings and arrays, as literal subject / current node / after a pipe / twice in a row); each driven through Search, Compile and Expression.Search with every returned error formatted; a monitor reports recovered panics, the driver attributes child deaths through the crash-surviving intent slot; non-trivial = every distinct input (all are meaningful for a crash property); the hostile values include a pool of standard-library carriers (math/big numbers, raw JSON, pointers to scalars and containers, readers, marshalers with nil-dereferencing methods), each as a useful value, a malformed one and a typed nil; byte-runs stream: every byte value and 20 ill-formed byte patterns repeated 1..70000 times (22 lengths around 64, 128, 256, 1024, 4096), alone, after a prefix, before a suffix and inside each token kind, every error formatted; misspelled-builtins stream: every name within one edit of a builtin, its prefixes, suffixes and case variants, all one- and two-letter names, in 4 call shapes; long-chains stream: 20 units alternating two selector kinds ([*].[*], [*].{a: a}, .[*].*, [::2].[a], .*[*], [?a].[a], ...) repeated to 16 MB (6 MB for flat chains)",
 		MinNontrivial: 1000,
 		Streams: []Stream{
 			{Name: "truncations", N: c03TruncN, Run: c03Trunc, Exhaustive: true},
